@@ -503,16 +503,38 @@ func init() {
 	cacheTag := func(c SV) *Term {
 		return ufun("ghost.cachetag", []string{SInt}, SInt, c.(*PtrV).Addr)
 	}
+	// regular expressions: a compiled *regexp.Regexp is an immutable box of its source pattern (ext.regexp.pat), and
+	// matching is an uninterpreted predicate of (pattern, subject) — Go's regexp engine is trusted (C12).
+	rxPat := func(r *Term) *Term { return ufun("ext.regexp.pat", []string{SInt}, SStr, r) }
+	externs["regexp.Compile"] = func(e *Exec, st *BState, x *ssa.Call, args []SV) SV {
+		tup := x.Type().(*types.Tuple)
+		r := e.allocAddr(st)
+		e.assume(eq(rxPat(r), scal(args[0])))
+		er := e.freshSV(tup.At(1).Type(), "regexp.Compile.err", st.reach, false).(*IfaceV)
+		return &TupleV{Elems: []SV{&PtrV{Ty: tup.At(0).Type(), Addr: ite(eq(er.Tag, intLit(0)), r, intLit(0))}, er}}
+	}
+	externs["(*regexp.Regexp).MatchString"] = func(e *Exec, st *BState, x *ssa.Call, args []SV) SV {
+		return &Scalar{T: ufun("ext.regexp.match", []string{SStr, SStr}, SBool, rxPat(args[0].(*PtrV).Addr), scal(args[1])), Ty: x.Type()}
+	}
 	externs["(*github.com/dgraph-io/ristretto.Cache).Get"] = func(e *Exec, st *BState, x *ssa.Call, args []SV) SV {
 		ok := e.fresh("cache.ok", SBool)
 		tup := x.Type().(*types.Tuple)
 		v := e.freshSV(tup.At(0).Type(), "cache.val", st.reach, false).(*IfaceV)
 		e.assume(implies(ok, eq(v.Tag, cacheTag(args[0]))))
 		e.assume(and(le(intLit(0), v.Ref), lt(v.Ref, e.frontier(st))))
+		// memo-table coherence (rely): a regexp found under a string key was compiled from that key — guaranteed by
+		// the obligation at every Set of the same table (cache.coherent)
+		if ks := boxedString(e, x.Call.Args[1]); ks != nil {
+			e.assume(implies(and(ok, eq(v.Tag, e.typeID(regexpPtrType(x)))), eq(rxPat(v.Ref), ks)))
+		}
 		return &TupleV{Elems: []SV{v, boolSV(ok)}}
 	}
 	externs["(*github.com/dgraph-io/ristretto.Cache).Set"] = func(e *Exec, st *BState, x *ssa.Call, args []SV) SV {
 		e.oblige(st, "nopanic.extern.cache.valuetype", x.Pos(), eq(args[2].(*IfaceV).Tag, cacheTag(args[0])))
+		if ks := boxedString(e, x.Call.Args[1]); ks != nil {
+			iv := args[2].(*IfaceV)
+			e.oblige(st, "cache.coherent", x.Pos(), implies(eq(iv.Tag, e.typeID(regexpPtrType(x))), eq(rxPat(iv.Ref), ks)))
+		}
 		return boolSV(e.fresh("cache.set", SBool))
 	}
 	// bufio.Scanner: Scan advances a ghost token counter; Text/Bytes/Err are functions of (scanner, tokens read so far)
@@ -1022,4 +1044,40 @@ func (e *Exec) havocCalleeFrame(st, pre *BState, f *ssa.Function, args []SV, lab
 			st.ghost[k] = e.freshSV(ghostTypes[k], "call."+k, st.reach, false)
 		}
 	}
+}
+
+
+// boxedString: the string value of an interface argument that is a string boxed at the call site (else nil).
+func boxedString(e *Exec, a ssa.Value) *Term {
+	mi, ok := a.(*ssa.MakeInterface)
+	if !ok {
+		return nil
+	}
+	if b, ok := mi.X.Type().Underlying().(*types.Basic); !ok || b.Kind() != types.String {
+		return nil
+	}
+	fr := e.curFrame
+	if fr == nil {
+		return nil
+	}
+	return scal(e.val(fr, mi.X))
+}
+
+var regexpPtr types.Type
+
+// regexpPtrType: *regexp.Regexp, found through the program of the calling function.
+func regexpPtrType(x *ssa.Call) types.Type {
+	if regexpPtr != nil {
+		return regexpPtr
+	}
+	prog := x.Parent().Prog
+	for _, p := range prog.AllPackages() {
+		if p.Pkg.Path() == "regexp" {
+			if t := p.Type("Regexp"); t != nil {
+				regexpPtr = types.NewPointer(t.Type())
+				return regexpPtr
+			}
+		}
+	}
+	panic("regexp.Regexp not in the program")
 }
